@@ -478,6 +478,33 @@ def constituent(loader, check, module):
     check.extra[f"constituent_{module}"] = {"obligations": len(check.obs) - n0, "generation_s": round(time.time() - t0, 1)}
 
 
+def full_constituent(check, module):
+    """thorough tier: the constituent's complete quick instance set (its own run() with a sink that neither writes evidence nor
+    runs the mutant self-test), merged into this check"""
+    mod = importlib.import_module(f"contracts.{module}")
+    sub = Check(PROP, "quick", check.seed)
+    sub.inherit_findings = True
+    sub.finish = lambda **kw: 0
+    saved = getattr(mod, "run_mutants", None)
+    if saved is not None:
+        mod.run_mutants = lambda *a, **k: None
+    t0 = time.time()
+    try:
+        mod.run(sub)
+    finally:
+        if saved is not None:
+            mod.run_mutants = saved
+    sub.discharge()
+    d = sub.export()
+    for r in d["obs"]:
+        r["family"] = f"{module.upper()}(full):{r['family']}" if r.get("family") else f"{module.upper()}(full)"
+    check.merge(d)
+    for t in sub.trusted:
+        if t not in check.trusted:
+            check.trusted.append(t)
+    check.extra[f"constituent_full_{module}"] = {"obligations": len(d["obs"]), "seconds": round(time.time() - t0, 1)}
+
+
 def generate_reduced(loader, check):
     for w in ("division", "types", "misc", "transform_insn"):
         gen_task(loader, check, w, False)
@@ -502,8 +529,13 @@ def run(check: Check):
             print(f"DEBUG phase {name} done at {phases[name]} s", flush=True)
     check.run_parallel("contracts.c01", "gen_task", [{"what": w} for w in ("division", "types", "misc", "transform_insn")], workers=WORKERS)
     phase("own contracts")
-    # the constituents' own thorough tiers do the full second-solver cross-check; here it is capped
-    check.run_parallel("contracts.c01", "constituent", [{"module": m} for m in CONSTITUENTS], workers=WORKERS, sink_attrs={"cross_check_limit_s": 120})
+    if check.tier == "thorough":
+        # thorough: the complete quick instance sets of the constituents (what their own quick checks decide)
+        for m in CONSTITUENTS:
+            full_constituent(check, m)
+            phase(f"constituent {m} (full quick set)")
+    else:
+        check.run_parallel("contracts.c01", "constituent", [{"module": m} for m in CONSTITUENTS], workers=WORKERS)
     phase("constituents")
     coverage_lemma(Loader_(), check)
     phase("coverage lemma")
